@@ -6,37 +6,8 @@ Import ListNotations.
 Open Scope list_scope.
 
 (* ---- the two list traversals of the dethunk pass, named ---- *)
-Definition dethunk_list (fuel : nat) (E : env) :=
-  fix go (l : list presp) (s : st) : xres (list presp) :=
-    match l with
-    | [] => XOk [] s
-    | x :: r =>
-      match dethunk fuel E x s with
-      | XOk y s' => match go r s' with
-                    | XOk ys s'' => XOk (y :: ys) s''
-                    | XRaise e s'' => XRaise e s''
-                    | XFuel => XFuel
-                    end
-      | XRaise e s' => XRaise e s'
-      | XFuel => XFuel
-      end
-    end.
-
-Definition dethunk_fields (fuel : nat) (E : env) :=
-  fix go (l : list (name * presp)) (s : st) : xres (list (name * presp)) :=
-    match l with
-    | [] => XOk [] s
-    | (k, x) :: r =>
-      match dethunk fuel E x s with
-      | XOk y s' => match go r s' with
-                    | XOk ys s'' => XOk ((k, y) :: ys) s''
-                    | XRaise e s'' => XRaise e s''
-                    | XFuel => XFuel
-                    end
-      | XRaise e s' => XRaise e s'
-      | XFuel => XFuel
-      end
-    end.
+Definition dethunk_list (fuel : nat) (E : env) := Exec.dethunk_list (dethunk fuel E).
+Definition dethunk_fields (fuel : nat) (E : env) := Exec.dethunk_fields (dethunk fuel E).
 
 Lemma dethunk_S : forall fuel E q s,
   dethunk (S fuel) E q s =
